@@ -1,5 +1,6 @@
 import RV.C16.Model
 import RV.C16.Spec
+import RV.C16.Text
 import RV.Base.Proto
 /-
   C16 driver.  One operation per line, tokens separated by blanks.
@@ -28,6 +29,21 @@ import RV.Base.Proto
                                        or `F<len>`, joined by ` ; `, then ` | <Result>` = Result.bindings at the end
     mhist <0|1> <Result> | <o|n<i>|f>* -> several live iterators: per op `O` / `R cells…` / `X` / `F<len>`, then ` | <Result>`
     const <token>               -> <token>
+
+  Text level (round g); every answer starts with `=` so that it is never empty:
+    jstr-dumps <0|1> <s>*       -> = <s>*                         pyDumpsStr (ensure_ascii = 0|1), quotes included
+    jstr-loads <s>*             -> = (ok:<s> | err:<Kind>)*       jsonLoadsStr on whole string tokens
+    jstr-spell (<s>/<k.k.k|->)* -> = <s>*                         '"' ++ jsonSpell ks s ++ '"'
+    xtext-write <s>*            -> = <s>*                         xmlWriteText (character data as `_characters` spells it)
+    xdoc-texts-ascii <s>*       -> XTEXT <s>*                     xmlWriteTextEnc encAscii (what `encoding="ascii"` makes of character data)
+    xattr-write <s>*            -> = <s>*                         quoteattr (quotes included)
+    xdoc-texts / xdoc-attrs <s>* -> XTEXT <s>* / XATTR <s>*        the same, for the harness to assemble a document from
+    xtext-read <s>*             -> = (ok:<s> | err:ParseError)*   xmlReadContent on the character data of one element
+    xattr-read <s>*             -> = (ok:<s> | err:ParseError)*   xmlReadAttr on a quoted attribute value
+    ctext-parse <s>             -> ok <Table> | err:<Kind>        csvParse (a whole CSV document)
+    ctext-of <s>                -> ok <Result> | err:<Kind>       ofCsv (csvParse text)
+    ctext-write <Result>        -> CTEXT <s> | err:<Kind>         csvWrite (toCsv r)
+    ctext-render <lf> <nrows> (<nfields> (<q>:<s>)^nfields)^nrows -> = <s>     csvRender (reference writer with choices)
 -/
 open RV RV.C16 RV.Proto
 
@@ -198,6 +214,32 @@ def decMOp (w : String) : Option MOp :=
   else if w.startsWith "n" then (w.drop 1).toNat?.map .next
   else none
 
+def decSpell (w : String) : Option (Str × List Nat) :=
+  match w.splitOn "/" with
+  | [s, ks] => do
+    let s ← decStr s
+    let ks ← if ks = "-" then some [] else (ks.splitOn ".").mapM String.toNat?
+    pure (s, ks)
+  | _ => none
+
+def decQField (w : String) : Option (Bool × Str) :=
+  match w.splitOn ":" with
+  | [q, s] => (decStr s).map (fun x => (q = "1", x))
+  | _ => none
+
+def decQRows : Nat → List String → List (List (Bool × Str)) → Option (List (List (Bool × Str)))
+  | 0, ws, acc => if ws.isEmpty then some acc.reverse else none
+  | k + 1, m :: ws, acc => do
+    let m ← m.toNat?
+    let (fs, ws) ← takeN decQField m ws
+    decQRows k ws (fs :: acc)
+  | _ + 1, [], _ => none
+
+def mapStrs (tag : String) (ws : List String) (f : Str → String) : String :=
+  match ws.mapM decStr with
+  | some ss => " ".intercalate (tag :: ss.map f)
+  | none => "bad-op"
+
 def withResult (ws : List String) (f : Result → String) : String :=
   match decResult ws with
   | some (r, []) => f r
@@ -277,6 +319,50 @@ def step (_ : Unit) : List String → Unit × String
         ((), " ; ".intercalate (outs.map show1) ++ " | " ++ encResult (.select vars s.force.mat))
       | none => ((), "bad-op")
     | _ => ((), "bad-op")
+  | "jstr-dumps" :: a :: ws =>
+    match ws.mapM decStr with
+    | some ss => ((), " ".intercalate ("=" :: ss.map (fun s => encStr (pyDumpsStr (a = "1") s))))
+    | none => ((), "bad-op")
+  | "jstr-loads" :: ws =>
+    match ws.mapM decStr with
+    | some ss => ((), " ".intercalate ("=" :: ss.map (fun s =>
+        match jsonLoadsStr s with | .ok x => "ok:" ++ encStr x | .error e => "err:" ++ encErr e)))
+    | none => ((), "bad-op")
+  | "jstr-spell" :: ws =>
+    match ws.mapM decSpell with
+    | some ps => ((), " ".intercalate ("=" :: ps.map (fun (s, ks) => encStr ('"' :: (jsonSpell ks s ++ ['"'])))))
+    | none => ((), "bad-op")
+  | "xtext-write" :: ws => ((), mapStrs "=" ws (fun s => encStr (xmlWriteText s)))
+  | "xattr-write" :: ws => ((), mapStrs "=" ws (fun s => encStr (quoteattr s)))
+  | "xdoc-texts" :: ws => ((), mapStrs "XTEXT" ws (fun s => encStr (xmlWriteText s)))
+  | "echo" :: ws => ((), " ".intercalate ws)
+  | "xdoc-texts-ascii" :: ws => ((), mapStrs "XTEXT" ws (fun s => encStr (xmlWriteTextEnc encAscii s)))
+  | "xdoc-attrs" :: ws => ((), mapStrs "XATTR" ws (fun s => encStr (quoteattr s)))
+  | "xtext-read" :: ws => ((), mapStrs "=" ws (fun s =>
+      match xmlReadContent (s ++ ['<']) with
+      | some (x, ['<']) => "ok:" ++ encStr x
+      | _ => "err:ParseError"))
+  | "xattr-read" :: ws => ((), mapStrs "=" ws (fun s =>
+      match xmlReadAttr s with
+      | some (x, []) => "ok:" ++ encStr x
+      | _ => "err:ParseError"))
+  | ["ctext-parse", w] =>
+    match decStr w with
+    | some t => ((), match csvParse t with | .ok tb => "ok " ++ encTable tb | .error e => "err:" ++ encErr e)
+    | none => ((), "bad-op")
+  | ["ctext-of", w] =>
+    match decStr w with
+    | some t => ((), match csvParse t with | .ok tb => encOut (ofCsv tb) | .error e => "err:" ++ encErr e)
+    | none => ((), "bad-op")
+  | "ctext-write" :: ws =>
+    ((), withResult ws (fun r => match toCsv r with | .ok t => "CTEXT " ++ encStr (csvWrite t) | .error e => "err:" ++ encErr e))
+  | "ctext-render" :: lf :: n :: ws =>
+    match n.toNat? with
+    | some n =>
+      match decQRows n ws [] with
+      | some rows => ((), "= " ++ encStr (csvRender (rows.map (·.map (·.1))) (lf = "1") (rows.map (·.map (·.2)))))
+      | none => ((), "bad-op")
+    | none => ((), "bad-op")
   | ["const", w] => ((), w)
   | _ => ((), "bad-op")
 
